@@ -613,6 +613,83 @@ func VerifC07_ScheduleZeroKeepsQueuedTask() {
 	rt.Reach("schedzero-end")
 }
 
+// every entry of the two queues belongs to the task it names (the analogue of
+// scheduleOK for the queues)
+func queuesOK(tag string) {
+	queuesLock.Lock()
+	defer queuesLock.Unlock()
+	for e := taskQueue.Front(); e != nil; e = e.Next() {
+		rt.Assert(e.Value.(*Task).queueElement == e, tag+"/queue-entry-belongs-to-its-task")
+	}
+	for e := prioritizedTaskQueue.Front(); e != nil; e = e.Next() {
+		rt.Assert(e.Value.(*Task).prioritizedQueueElement == e, tag+"/prioritized-queue-entry-belongs-to-its-task")
+	}
+}
+
+// a queued task whose max delay expires while another task holds the slot is
+// started directly - and leaves no entry behind in its queue: scheduled
+// afterwards, it does not start before its time when the queue moves on
+func VerifC07_DirectStartLeavesNoQueueEntry() {
+	rt.SchedYieldOnly(true)
+	m := c07Reset()
+	// (a unit well below the execution-wait limit of one minute, so that the
+	// queue's slot stays taken while the other task runs)
+	u := 10 * time.Second
+	if !rt.Symbolic() {
+		u = 100 * time.Millisecond
+	}
+	runs := 0
+	bRunning := false
+	gate := make(chan struct{})
+	var lastStart time.Time
+	t := m.NewTask("t", func(context.Context, *Task) error {
+		runs++
+		lastStart = time.Now()
+		return nil
+	}).MaxDelay(u)
+	b := m.NewTask("b", func(context.Context, *Task) error {
+		bRunning = true
+		<-gate
+		bRunning = false
+		return nil
+	}).MaxDelay(0)
+	go func() {
+		for {
+			taskTimeslot <- struct{}{}
+		}
+	}()
+	go taskQueueHandler()
+	go taskScheduleHandler()
+	b.Queue()
+	time.Sleep(u / 8)
+	rt.Assert(bRunning, "directstart/slot-taken")
+	switch rt.Choice("submit", 3) {
+	case 0:
+		t.Queue()
+	case 1:
+		t.QueuePrioritized()
+	case 2:
+		t.StartASAP()
+	}
+	time.Sleep(2 * u) // the max delay has expired: started directly
+	rt.Assert(runs == 1, "directstart/started-when-its-max-delay-expired")
+	queuesOK("directstart") // (everything is at rest: t has returned, b waits)
+	at := time.Now().Add(6 * u)
+	t.Schedule(at)
+	close(gate) // the queue moves on
+	time.Sleep(3 * u)
+	rt.Assert(runs == 1, "directstart/scheduled-task-not-started-before-its-time")
+	time.Sleep(8 * u)
+	rt.Assert(runs == 2, "directstart/scheduled-run-happened")
+	if runs == 2 {
+		rt.Assert(!lastStart.Before(at), "directstart/scheduled-run-not-before-its-time")
+	}
+	if rt.Symbolic() {
+		queuesOK("directstart")
+	}
+	rt.Reach("directstart-end")
+}
+
 // ---- O5: no self-overlap when re-queued while executing; the re-submission is not lost ----
 
 func VerifC07_NoSelfOverlap() {
